@@ -30,18 +30,27 @@ type caseDesc struct {
 	T0     uint64       `json:"t0"`
 	Evs    []ev         `json:"events"`
 	FailAt int          `json:"fail_at,omitempty"`
+	// PreProbe: the rules replace predecessors that differ from them only in the probe number (0 <-> 1, n -> n-1):
+	// the machine runs with the probe number loaded last
+	PreProbe bool `json:"preloaded_with_other_probe_number,omitempty"`
 }
 
-type lsn struct{ log []ref.Transition }
+type lsn struct {
+	log []ref.Transition
+	at  []uint64 // virtual time of each reported transition
+}
 
 func (l *lsn) OnTransformToClosed(prev cb.State, rule cb.Rule) {
 	l.log = append(l.log, ref.Transition{Rule: rule.Id, From: int(prev), To: ref.Closed})
+	l.at = append(l.at, clk.Ms())
 }
 func (l *lsn) OnTransformToOpen(prev cb.State, rule cb.Rule, snapshot interface{}) {
 	l.log = append(l.log, ref.Transition{Rule: rule.Id, From: int(prev), To: ref.Open})
+	l.at = append(l.at, clk.Ms())
 }
 func (l *lsn) OnTransformToHalfOpen(prev cb.State, rule cb.Rule) {
 	l.log = append(l.log, ref.Transition{Rule: rule.Id, From: int(prev), To: ref.HalfOpen})
+	l.at = append(l.at, clk.Ms())
 }
 
 var run *vk.Run
@@ -177,6 +186,20 @@ func runCase(idx int, c *caseDesc) {
 			MinRequestAmount: r.MinReq, StatIntervalMs: uint32(r.StatMs), StatSlidingWindowBucketCount: uint32(r.Buckets),
 			MaxAllowedRtMs: r.MaxRt, Threshold: r.Threshold, ProbeNum: r.ProbeNum})
 		models = append(models, ref.NewCB(*r))
+	}
+	if c.PreProbe {
+		var pre []*cb.Rule
+		for _, r := range rules {
+			x := *r
+			if x.ProbeNum == 0 {
+				x.ProbeNum = 1
+			} else {
+				x.ProbeNum--
+			}
+			pre = append(pre, &x)
+		}
+		cb.LoadRules(pre)
+		run.Count("probe_number_reloads", 1)
 	}
 	if _, err := cb.LoadRules(rules); err != nil {
 		run.Violation("C03/load-error", err.Error(), c)
@@ -343,7 +366,7 @@ func main() {
 	sx.Quiet()
 	run = vk.Start("C03", "seq")
 	defer run.Finish()
-	run.Rule("case = (1-3 breakers: strategy, threshold incl. 0 and 1, min-request 0-8, retry 1-5000ms, stat interval 100-10000ms with 0/1/dividing/non-dividing bucket counts, probe number 0-3; 30-150 events start/end(err)/advance with overlapping requests and hostile deltas); every decision, triggered rule and the cumulative listener log are compared with ref.CB after every event; non-trivial = at least one block and two transitions; distinct by (transition path, rules).")
+	run.Rule("case = (1-3 breakers: strategy, threshold incl. 0 and 1, min-request 0-8, retry 1-5000ms, stat interval 100-10000ms with 0/1/dividing/non-dividing bucket counts, probe number 0-3, every fifth case loaded over predecessors that differ in the probe number only; 30-150 events start/end(err)/advance with overlapping requests and hostile deltas); every decision, triggered rule and the cumulative listener log are compared with ref.CB after every event; non-trivial = at least one block and two transitions; distinct by (transition path, rules). Plus a family where the threshold of an OPEN breaker's rule is modified by a reload: no Open->HalfOpen is reported earlier than one retry timeout after the latest reported opening.")
 	run.Assume("sequential callers", "response time = completion time - entry creation time (virtual ms)", "error-count thresholds are whole numbers", "ratios inside (1e-9,1e-7) of the threshold are don't-care (counted)")
 	clk = vclock.New(1700000000000)
 	cb.RegisterStateChangeListeners(L)
@@ -353,6 +376,7 @@ func main() {
 			continue
 		}
 		c := genCase(run.Rand(i))
+		c.PreProbe = i%5 == 4
 		run.Begin(i, c)
 		if i < 2 {
 			cc := *c
@@ -363,4 +387,103 @@ func main() {
 		}
 		run.Guard("C03/panic", c, func() { runCase(i, c) })
 	}
+	for i := n; i < n+n/5; i++ {
+		if run.Skip(i) {
+			continue
+		}
+		c := genModify(run.Rand(i))
+		run.Begin(i, c)
+		run.Guard("C03/panic", c, func() { runModify(i, c) })
+	}
+}
+
+// ---- a rule is modified (threshold only) while its breaker is open: whatever state the modified rule's breaker starts
+// in, every reported Open->HalfOpen transition comes at least one retry timeout after the latest reported opening of
+// that rule, and nothing is admitted by a breaker that has reported Open and not yet HalfOpen/Closed.
+type modCase struct {
+	Strategy int      `json:"strategy"`
+	Retry    uint32   `json:"retry_ms"`
+	Probe    uint64   `json:"probe_num"`
+	Path     string   `json:"path"`
+	Gap      uint64   `json:"reload_ms_after_opening"`
+	Steps    []uint64 `json:"advance_before_request_ms"`
+	Fail     []bool   `json:"request_fails"`
+	Note     string   `json:"note,omitempty"`
+}
+
+func genModify(rng *rand.Rand) *modCase {
+	c := &modCase{Strategy: rng.Intn(3), Retry: vk.PickU32(rng, 200, 1000, 3000), Probe: uint64(vk.PickI(rng, 0, 0, 1, 2)), Path: vk.PickS(rng, "whole-set", "per-resource")}
+	c.Gap = uint64(vk.PickI64(rng, 0, 20, int64(c.Retry)/2, int64(c.Retry)-1))
+	for k, n := 0, 3+rng.Intn(6); k < n; k++ {
+		c.Steps = append(c.Steps, uint64(vk.PickI64(rng, 0, 20, 100, int64(c.Retry)/3, int64(c.Retry), int64(c.Retry)+1)))
+		c.Fail = append(c.Fail, rng.Intn(2) == 0)
+	}
+	return c
+}
+
+func runModify(idx int, c *modCase) {
+	caseNo++
+	res := fmt.Sprintf("c03-m-%d", caseNo)
+	id := res + ".b"
+	clk.SetMs(1700000000000 + uint64(caseNo)*100000)
+	mk := func(thr float64) []*cb.Rule {
+		r := &cb.Rule{Id: id, Resource: res, Strategy: cb.Strategy(c.Strategy), RetryTimeoutMs: c.Retry, MinRequestAmount: 1, StatIntervalMs: 10000, Threshold: thr, ProbeNum: c.Probe, MaxAllowedRtMs: 10}
+		if r.Strategy != cb.ErrorCount {
+			r.Threshold = thr / 4 // ratios 0.25 -> 0.5
+		}
+		return []*cb.Rule{r}
+	}
+	L.log, L.at = L.log[:0], L.at[:0]
+	cb.LoadRulesOfResource(res, mk(1))
+	defer cb.ClearRulesOfResource(res)
+	req := func(fail bool) bool {
+		e, b := sentinel.Entry(res)
+		if b != nil {
+			return false
+		}
+		if fail {
+			if c.Strategy == int(cb.SlowRequestRatio) {
+				clk.AddMs(50)
+			} else {
+				sentinel.TraceError(e, errors.New("x"))
+			}
+		}
+		e.Exit()
+		return true
+	}
+	req(true)
+	if len(L.log) != 1 || L.log[0].To != ref.Open {
+		run.Count("modify_setup_not_open", 1)
+		return
+	}
+	lastOpen, reported := L.at[0], ref.Open
+	seen := 1
+	clk.AddMs(c.Gap)
+	if c.Path == "whole-set" {
+		cb.LoadRules(mk(2))
+	} else {
+		cb.LoadRulesOfResource(res, mk(2))
+	}
+	for k, dt := range c.Steps {
+		clk.AddMs(dt)
+		req(c.Fail[k])
+		for ; seen < len(L.log); seen++ {
+			tr, at := L.log[seen], L.at[seen]
+			if tr.Rule != id {
+				continue
+			}
+			if tr.To == ref.Open {
+				lastOpen = at
+			}
+			if tr.From == ref.Open && tr.To == ref.HalfOpen && at < lastOpen+uint64(c.Retry) {
+				c.Note = fmt.Sprintf("request %d", k)
+				run.Violation("C03/modified-while-open:half-open-before-retry-timeout", fmt.Sprintf("[strategy %d retry %dms, threshold modified %d ms after the breaker opened, %s path] Open->HalfOpen reported at +%d ms after the latest reported opening", c.Strategy, c.Retry, c.Gap, c.Path, at-lastOpen), c)
+				return
+			}
+			reported = tr.To
+		}
+	}
+	_ = reported
+	run.Count("modified_while_open_cases", 1)
+	run.Distinct(vk.Hash("modify", c.Strategy, c.Retry, c.Probe, c.Path, c.Gap, len(c.Steps)))
 }
